@@ -114,6 +114,22 @@ def builders():
     )
     B["Hemisphere"] = (lambda fr, s: cb.Hemisphere(P(fr, [0, 0, 0], s), P(fr, [0.8, 0, 0], s), V(fr, [0, 0, 1])), chop_round, {})
 
+    # Box from its two corner points given in any order, away from the origin and with negative coordinates: two boxes
+    # that share a side, each given by one of its four space diagonals in either direction (axis-aligned by definition:
+    # frame 0 only)
+    def box_pair(k, s):
+        lo_a, hi_a = np.array([-3.0, -2.0, 1.0]) * s, np.array([-2.0, 0.0, 1.5]) * s
+        lo_b, hi_b = np.array([-2.0, -2.0, 1.0]) * s, np.array([-0.5, 0.0, 1.5]) * s
+
+        def diag(lo, hi, kk):
+            start = np.array([hi[i] if (kk >> i) & 1 else lo[i] for i in range(3)])
+            return start, lo + hi - start
+
+        return _Group([cb.Box(*diag(lo_a, hi_a, k)), cb.Box(*diag(lo_b, hi_b, 7 - k if k % 2 else (k + 3) % 8))])
+
+    for k in range(8):
+        B[f"BoxPair{k}"] = (lambda fr, s, k=k: box_pair(k, s), chop_ops, {"frames": [0], "vertices": 12, "bbox": ([-3.0, -2.0, 1.0], [-0.5, 0.0, 1.5])})
+
     def shell(fr, s):
         box = cb.Extrude(cb.Face(quad(fr, s)), 0.8 * s)
         faces = [box.get_face("top"), box.get_face("right"), box.get_face("back")]
@@ -411,6 +427,11 @@ def run_shape(case):
         bad(clause, detail)
     if "vertices" in opt and len(mesh.vertices) != opt["vertices"]:
         bad("vertex-count", f"{len(mesh.vertices)} vertices, expected {opt['vertices']} (blocks that touch share their vertices)")
+    if "bbox" in opt and case.get("via") != "transform" and fr == 0:
+        VV = np.array([v.position for v in mesh.vertices])
+        lo, hi = np.array(opt["bbox"][0]) * s, np.array(opt["bbox"][1]) * s
+        if np.max(np.abs(VV.min(axis=0) - lo)) > 1e-9 * s or np.max(np.abs(VV.max(axis=0) - hi)) > 1e-9 * s:
+            bad("shape-not-where-it-was-placed", f"vertices span {VV.min(axis=0).tolist()} .. {VV.max(axis=0).tolist()}, the given corners {lo.tolist()} .. {hi.tolist()}")
     if "blocks" in opt and len(mesh.blocks) != opt["blocks"]:
         bad("block-count", f"{len(mesh.blocks)}")
     if "arc_axis" in opt:
